@@ -14,7 +14,14 @@ def make_config(node_id, **kwargs):
         idle_time=0,
     )
     opts.update(kwargs)
-    cfg = tcpcl_config.Config(**opts)
+    if opts.pop('via_file', False):
+        # the way the daemon is configured: a document read by the real Config.from_file()
+        import io  # pylint: disable=import-outside-toplevel
+        import json  # pylint: disable=import-outside-toplevel
+        cfg = tcpcl_config.Config()
+        cfg.from_file(io.StringIO(json.dumps({'tcpcl': opts})))
+    else:
+        cfg = tcpcl_config.Config(**opts)
     cfg._bus_conn = dbus.bus.BusConnection('vf-bus-' + node_id)
     return cfg
 
